@@ -27,6 +27,8 @@ EXTRA = [
     "Conditional(And(Le(a, 1), Gt(b, 0)), -x, x*y)", "Conditional(Eq(x, 1), 0, -x)", "-x*Conditional(Gt(t, 1), 1, 2)",
     "-sqrt(abs(x))", "-abs(x)**3", "Conditional(Gt(abs(x), 1), -x, -abs(x))", "ContinuousConditional(Gt(x, a), -x, x, 0.5)",
     "Conditional(Gt(a, 0), -x, x)", "-abs(y)*x", "Gt(x, 0)*x - x*x",
+    "Conditional(Eq(x, 0.5), 1, -x)", "Conditional(Eq(x, y), 0, y - x)", "Conditional(Eq(floor(4*x)/4, 0.25), -1, -x)",
+    "Conditional(Eq(a, 0.5), -x, x)", "Gt(x, 0) + Gt(y, 0) - x", "Conditional(Eq(x, 1.0), 0, -x)",
 ]
 HEADER = "parameters(a=0.5, b=2.0)\nstates(x=1.0, y=2.0)\n"
 SCHEMES = ["explicit_euler", "generalized_rush_larsen", "hybrid_rush_larsen"]
